@@ -442,6 +442,41 @@ func rulesC17(w *World, r *Report) {
 		} else {
 			r.OK("C17.R4", key, w.pos(h.Pos()), "stateless: writes only per-request and freshly allocated memory")
 		}
+		// a field of the shared *app handed by address to code outside the module (a cache, a pool, a singleflight
+		// group, a mutex-protected map): state that outlives the request, whatever the callee does with it
+		if h.Signature.Recv() != nil {
+			for _, g := range withLiterals(h) {
+				for _, c := range callsIn(g) {
+					sc := c.Common().StaticCallee()
+					if sc != nil && w.inModule(sc) {
+						continue
+					}
+					for _, a := range c.Common().Args {
+						fa, ok := a.(*ssa.FieldAddr)
+						if !ok {
+							continue
+						}
+						base := fa.X
+						if u, ok := base.(*ssa.UnOp); ok {
+							base = u.X
+						}
+						isApp := base == ssa.Value(h.Params[0])
+						if fv, ok := base.(*ssa.FreeVar); ok && strings.Contains(fv.Type().String(), "app") {
+							isApp = true
+						}
+						if isApp {
+							name := "a call"
+							if sc != nil {
+								name = funcName(sc)
+							} else if c.Common().IsInvoke() {
+								name = c.Common().Method.Name()
+							}
+							r.Violate("C17.R4", key+":shares-app-state:"+name, w.instrPos(c), "the handler hands a field of the shared app to "+name+" by address: state kept there is shared by concurrent and later requests, which then no longer return what they would return alone")
+						}
+					}
+				}
+			}
+		}
 	}
 
 	r.Rule("C17.R5", "package variables of the module are stored only by package initialisers, main.run/runSubcommand (start-up) — never on a read, command or handler path", 1)
